@@ -189,6 +189,18 @@ def run_recheck(case):
         if case.get("noise") and os.path.isdir(root):      # files the torrent does not describe
             write_file(os.path.join(root, "zz-not-in-torrent.txt"), b"noise")
             write_file(os.path.join(root, "zz-extra-dir", "more.bin"), b"\x00" * 100)
+        if case.get("noise"):
+            # siblings of the payload that merely LOOK like it: same name in another letter case (sorting
+            # before and after), name plus a suffix, name minus its last character
+            par, nm = os.path.dirname(root), tree["name"]
+            for alt in (nm.swapcase(), nm.upper(), nm.capitalize(), nm + ".bak", nm + "~", nm[:-1]):
+                ap = os.path.join(par, alt)
+                if alt and alt != nm and not os.path.lexists(ap):
+                    if single:
+                        write_file(ap, b"\x07" * tree["files"][0]["size"])
+                    else:
+                        for f in tree["files"][:2]:
+                            write_file(os.path.join(ap, *f["path"]), b"\x07" * f["size"])
         if case.get("via_symlink") and os.path.exists(path):   # the content path is a symbolic link
             alias_dir = os.path.join(sbx, "links")
             os.makedirs(alias_dir, exist_ok=True)
